@@ -345,6 +345,8 @@ class Frame:
             return 'false'
         if k == 'for':
             init, cond, inc, body = s[1], s[2], s[3], s[4]
+            if not init and not inc and cond[0] == 'const' and cond[2]:
+                return self.B.loop_handler(self, ('while', cond, body, s[5] if len(s) > 5 else 0), pc)     # for (;;) { ... break; }
             pc = self.block(init, pc)
             n = 0
             while True:
@@ -558,7 +560,7 @@ class Frame:
             return self.merge(c, a, b)
         if k == 'call':
             name, args = e[1], e[2]
-            if name in LIBM1 or name in LIBM2 or name in ('fabs', 'abs', 'floor', 'ceil', 'copysign', 'trunc', 'isnan', 'isfinite'):
+            if name in LIBM1 or name in LIBM2 or name in ('fabs', 'abs', 'floor', 'ceil', 'copysign', 'trunc', 'isnan', 'isfinite', 'hypot'):
                 av = [self.ev(a, pc) for a in args]
                 return B.libm(name, av, pc, e[3])
             if name.startswith('affine_solve'):
@@ -650,6 +652,8 @@ class Builder:
             return neg(app('to_real', app('to_int', neg(av[0]))))
         if name == 'trunc':
             return ite(app('>=', av[0], '0.0'), app('to_real', app('to_int', av[0])), neg(app('to_real', app('to_int', neg(av[0])))))
+        if name == 'hypot':
+            name, av = 'sqrt', [add(mul(av[0], av[0]), mul(av[1], av[1]))]      # real semantics of hypot
         if name == 'copysign':
             m = ite(app('>=', av[0], '0.0'), av[0], neg(av[0]))
             return ite(app('>=', av[1], '0.0'), m, neg(m))
@@ -661,7 +665,7 @@ class Builder:
             self.oblige(name + '.arg_in_unit_interval', land(app('<=', '(- 1.0)', av[0]), app('<=', av[0], '1.0')), pc)
         if name == 'pow':
             # integer literal exponents are expanded; otherwise x > 0 required
-            m = re.match(r'^(\d+)\.0$', av[1])
+            m = re.match(r'^(\d+)(?:\.0)?$', av[1])
             if m and int(m.group(1)) <= 4:
                 r = av[0]
                 for _ in range(int(m.group(1)) - 1):
@@ -760,10 +764,20 @@ class Builder:
                 sym = self.fresh('it_' + v)
                 pre[v] = sym
                 frame.env[v].v = sym
-        frame.block(s[2], pc)
+        body = list(s[2])
+        if len(body) == 1 and body[0][0] == 'block':
+            body = list(body[0][1])
+        exit_if = None
+        if body and body[-1][0] == 'if' and body[-1][2] in ([('break',)], [('block', [('break',)])]) and not body[-1][3]:
+            exit_if = body.pop()          # for (;;) { ...; if (converged) break; }
+        frame.block(body, pc)
         post = {v: frame.env[v].v for v in pre}
         cond = frame.ev(s[1], pc)
-        self.loop_records.append({'function': frame.fn.cname, 'pre': pre, 'post': post, 'cond_after_body': cond})
+        rec = {'function': frame.fn.cname, 'pre': pre, 'post': post, 'cond_after_body': cond}
+        if exit_if is not None:
+            rec['exit_test_after_body'] = frame.ev(exit_if[1], pc)
+            rec['locals'] = {k: c.v for k, c in frame.env.items() if isinstance(c.v, str)}
+        self.loop_records.append(rec)
         self.note('while loop in %s summarised as a fixed-point iteration (partial correctness; termination and tolerance not decided)' % frame.fn.cname)
         return pc
 
